@@ -46,8 +46,9 @@ def engines():
         "tus": [{"src": "e1/cfg.cpp", "name": "cfg_" + c,
                  "flags": SAN + ["-DCFG_" + c],
                  "deps": e1_hdr + ["e1/cfgs.inc"]} for c in E1_CFGS] +
-               [{"src": "e1/main.cpp", "name": "main", "flags": SAN,
-                 "deps": ["e1/*.hpp", "common/*.hpp"]}],
+               [{"src": "e1/%s.cpp" % n, "name": "e1_" + n, "flags": SAN,
+                 "deps": ["e1/*.hpp", "common/*.hpp"]}
+                for n in ["main", "props_core", "props_meta", "props_hist", "props_rtti"]],
         "link": SAN + ["-lrapidcheck"],
     }
     return e
@@ -194,20 +195,20 @@ prop("C01", engine="e1", rule=(
     "and operator() and compared with the brute-force reference model; "
     "non-trivial = some called tuple has >= 2 applicable definitions; "
     "distinct = canonical hash of (registry, configuration)"),
-    quick=dict(cases=20000, size=60), thorough=dict(cases=300000, size=100))
+    quick=dict(cases=6000, size=60), thorough=dict(cases=200000, size=100))
 prop("C03", engine="e1", rule=(
     "random registries; after update the next pointer written for every "
     "definition is compared with the model's select() over strictly more "
     "general definitions; non-trivial = some definition has >= 2 strictly "
     "more general definitions"),
-    quick=dict(cases=30000, size=60), thorough=dict(cases=400000, size=100))
+    quick=dict(cases=10000, size=60), thorough=dict(cases=300000, size=100))
 prop("C04", engine="e1", rule=(
     "lattice-biased random registries, canonical and arbitrary legal "
     "presentations; slot injectivity per class from installed slots, "
     "bounds-checked re-implementation of the table walk, real resolve under "
     "ASan; non-trivial = a class with >= 2 direct bases exists and >= 2 "
     "(method, parameter) pairs share a class"),
-    quick=dict(cases=8000, size=60), thorough=dict(cases=150000, size=100))
+    quick=dict(cases=12000, size=60), thorough=dict(cases=200000, size=100))
 prop("C02", engine="e1", rule=(
     "random registries biased to gaps and ambiguities (duplicated "
     "definitions included), all signature shapes, error facets vectored / "
@@ -218,7 +219,7 @@ prop("C02", engine="e1", rule=(
     "for one case in eight the handler returns in a forked child which must "
     "die by abort; non-trivial = an erroring method with a non-virtual "
     "parameter or arity >= 2"),
-    quick=dict(cases=10000, size=60), thorough=dict(cases=150000, size=100))
+    quick=dict(cases=4000, size=60), thorough=dict(cases=100000, size=100))
 prop("C06", engine="e1", rule=(
     "random registries x 2..5 random permutations of class-record, method "
     "and definition registration orders (all permutations for one case in "
@@ -226,7 +227,17 @@ prop("C06", engine="e1", rule=(
     "metamorphic oracle: dispatch of every tuple and next of every "
     "definition equal across orders; non-trivial = a non-identity "
     "permutation and a tuple with >= 3 applicable definitions"),
-    quick=dict(cases=6000, size=60), thorough=dict(cases=100000, size=100))
+    quick=dict(cases=10000, size=60), thorough=dict(cases=150000, size=100))
+prop("C07", engine="e1", rule=(
+    "stateful: a universe registry and 3..40 operations load/unload class, "
+    "method, definition (real catalog push_back/remove of the registration "
+    "records, cascading to dependants so every update sees a closed "
+    "registry) and update; after every update all tuples over the live "
+    "classes dispatch per the model of the live registrations, next and "
+    "report likewise, and an update with no change alters nothing; eager, "
+    "indirect and deferred ids, with and without hash; non-trivial = an "
+    "update after a removal that changes some tuple's result"),
+    quick=dict(cases=2500, size=60), thorough=dict(cases=60000, size=100))
 prop("C08", engine="e1", rule=(
     "one random graph registered canonically and through a random legal "
     "presentation (1..3 records per class, any superset of the direct bases "
@@ -235,7 +246,27 @@ prop("C08", engine="e1", rule=(
     "equal to the model, acceptance relation = derived classes, slot "
     "injectivity and bounds, report; non-trivial = the presentation omits "
     "an indirect base of a class with >= 2 direct bases"),
-    quick=dict(cases=6000, size=60), thorough=dict(cases=100000, size=100))
+    quick=dict(cases=10000, size=60), thorough=dict(cases=150000, size=100))
+prop("C10", engine="e1", rule=(
+    "one abstract registry instantiated under 3..4 RTTI flavours (identity "
+    "custom ids with checked hash / map / no hash, many-to-one projection "
+    "with 1..3 alias ids per class spread over records, base lists, method "
+    "and definition parameter lists and object ids, deferred ids resolved "
+    "by update), 1..3 updates each; model oracle per flavour plus pairwise "
+    "equality of every tuple's dispatch and every next; under projection "
+    "every registered alias id is used as the dynamic id; non-trivial = "
+    "arity >= 2 or a class with >= 2 alias ids or >= 2 updates"),
+    quick=dict(cases=1500, size=60), thorough=dict(cases=40000, size=100))
+prop("C15", engine="e1", rule=(
+    "random registry with one class left out, used as a listed base, a "
+    "method parameter, a definition parameter (update must report "
+    "unknown_class with its id) or as the dynamic class of a virtual "
+    "argument at any position through a reference or a virtual_ptr built "
+    "from a base reference (the call must report unknown_class with its id, "
+    "exactly once, no body runs); checked configurations only; non-trivial "
+    "= left out as method/definition parameter, or dynamic at position >= 2 "
+    "or through a virtual_ptr"),
+    quick=dict(cases=4000, size=60), thorough=dict(cases=100000, size=100))
 prop("C17", engine="e1", rule=(
     "random registries with random abstract flags (roots and middles "
     "biased abstract), gappy and deliberately ambiguous (duplicated) "
@@ -243,7 +274,7 @@ prop("C17", engine="e1", rule=(
     "with the model, cells also with the number of cells built; "
     "non-trivial = at least one abstract class and a NONE or AMBIGUOUS "
     "tuple"),
-    quick=dict(cases=20000, size=60), thorough=dict(cases=300000, size=100))
+    quick=dict(cases=8000, size=60), thorough=dict(cases=300000, size=100))
 
 
 # --------------------------------------------------------------------------
